@@ -1,6 +1,7 @@
 package main
 
 import (
+	"encoding/binary"
 	"encoding/hex"
 	"errors"
 	"fmt"
@@ -570,6 +571,64 @@ func (st *store) exec(line string) (out string) {
 	case "reset":
 		*st = *newStore()
 		return "ok"
+	case "wf":
+		roots, err := refDecode(pjOf(ws[1]))
+		if err != nil {
+			return "malformed"
+		}
+		for _, r := range roots {
+			if r == nil {
+				return "malformed"
+			}
+		}
+		return "wf " + ordRoots(roots)
+	case "serde":
+		src := pjOf(ws[2])
+		m1, m2 := nextSerde.m1, nextSerde.m2
+		s1, s2 := nextSerde.s1, nextSerde.s2
+		if s1 == nil {
+			s1 = simdjson.NewSerializer()
+		}
+		if s2 == nil {
+			s2 = simdjson.NewSerializer()
+		}
+		s1.CompressMode(m1)
+		s2.CompressMode(m2)
+		blob := s1.Serialize(nil, *src)
+		lastBlob = blob
+		d, err := s2.Deserialize(blob, nextSerde.dst)
+		nextSerde = serdeOpts{m1: simdjson.CompressDefault, m2: simdjson.CompressDefault}
+		if err != nil {
+			return "err"
+		}
+		st.pjs[ws[1]] = d
+		return fmt.Sprintf("ok %d", len(d.Tape))
+	case "deser":
+		ts, _ := strconv.ParseUint(ws[2], 10, 64)
+		blob := frameBlob(ts, unhx(ws[3]), unhx(ws[4]), unhx(ws[5]), unhx(ws[6]))
+		d, err := simdjson.NewSerializer().Deserialize(blob, nil)
+		if err != nil {
+			return "err"
+		}
+		st.pjs[ws[1]] = d
+		return fmt.Sprintf("ok %d %s", len(d.Tape), h64(fnvWords(d.Tape)))
+	case "deserraw":
+		d, err := simdjson.NewSerializer().Deserialize(unhx(ws[2]), nil)
+		if err != nil {
+			return "err"
+		}
+		st.pjs[ws[1]] = d
+		return fmt.Sprintf("ok %d %s", len(d.Tape), h64(fnvWords(d.Tape)))
+	case "owalk":
+		s, err := owalk(pjOf(ws[1]))
+		if err != nil {
+			return errStr(err)
+		}
+		return s
+	case "spec":
+		return implSpec(false, ws[1] == "1", unhx(ws[2]))
+	case "speciface":
+		return implSpec(true, ws[1] == "1", unhx(ws[2]))
 	case "appendfloat":
 		b := unhx(ws[1])
 		var bits uint64
@@ -614,6 +673,47 @@ func (st *store) exec(line string) (out string) {
 		return "ok " + strings.Join(bufs, ";")
 	}
 	return "bad-op"
+}
+
+type serdeOpts struct {
+	m1, m2 simdjson.CompressMode
+	s1, s2 *simdjson.Serializer
+	dst    *simdjson.ParsedJson
+}
+
+var nextSerde = serdeOpts{m1: simdjson.CompressDefault, m2: simdjson.CompressDefault}
+var lastBlob []byte
+
+func putUvarint(b []byte, v uint64) []byte {
+	var tmp [10]byte
+	n := binary.PutUvarint(tmp[:], v)
+	return append(b, tmp[:n]...)
+}
+
+func putBlock(b []byte, data []byte) []byte {
+	if len(data) == 0 {
+		return append(b, 0)
+	}
+	b = putUvarint(b, uint64(len(data)+1))
+	b = append(b, 0)
+	return append(b, data...)
+}
+
+// frameBlob builds a serialized blob with uncompressed blocks around the given sections.
+func frameBlob(ts uint64, strs, msg, tags, vals []byte) []byte {
+	var body []byte
+	body = putUvarint(body, ts)
+	body = putUvarint(body, uint64(len(strs)))
+	body = putBlock(body, strs)
+	body = putUvarint(body, uint64(len(msg)))
+	body = putBlock(body, msg)
+	body = putUvarint(body, uint64(len(tags)))
+	body = putBlock(body, tags)
+	body = putUvarint(body, uint64(len(vals)))
+	body = putBlock(body, vals)
+	out := []byte{3}
+	out = putUvarint(out, uint64(len(body)))
+	return append(out, body...)
 }
 
 var lastPanic string
